@@ -1,1 +1,113 @@
-//! Trace export (AdapterTap -> NDJSON events); filled in with the trace-validation milestone.
+//! Binding B: export of an `AdapterTap` trace as NDJSON-ready events in the vocabulary of spec/Interp.tla.
+//! The adapter is Tap(Batching(GraphAdapter)); `Request` markers are interleaved before each `next()` on the
+//! result iterator; operation ids are replaced by call ordinals / outer-neighbour-yield ordinals.
+use std::{cell::RefCell, collections::BTreeMap, panic::{self, AssertUnwindSafe}, rc::Rc, sync::Arc};
+
+use serde_json::{json, Value};
+use trustfall_core::{
+    interpreter::{execution::interpret_ir, trace::{tap_results, AdapterTap, FunctionCall, Opid, Trace, TraceOpContent, YieldValue}},
+    ir::{FieldValue, IndexedQuery},
+};
+
+use crate::{graph::{GA, V}, irx::tagged, tovalue::to_value, val::{from_fv, idn, panic_msg, row_json}, wrappers::{Batching, Policy, Row}};
+
+fn vnum(v: &Value) -> Value { if v.is_null() { json!(0) } else { v.clone() } }
+fn pairs(v: Option<&Value>) -> Vec<Value> { v.and_then(|m| m.get("$map")).and_then(|a| a.as_array()).cloned().unwrap_or_default() }
+
+fn value_or_vec(v: &Value) -> Value {
+    if v.is_null() { return json!({"k":"null"}); }
+    if let Some(x) = v.get("Value") { return tagged(x); }
+    if let Some(l) = v.get("Vec") { return json!({"k":"list","v": l.as_array().unwrap().iter().map(value_or_vec).collect::<Vec<_>>()}); }
+    json!({"k":"other","v": v.to_string()})
+}
+
+fn refkey(r: &Value) -> Value {
+    if let Some(c) = r.get("ContextField") { json!(["tag", c["vertex_id"], c["field_name"], 0]) }
+    else if let Some(f) = r.get("FoldSpecificField") { json!(["cnt", 0, "", f["fold_eid"]]) }
+    else { json!(["?", 0, r.to_string(), 0]) }
+}
+
+/// What the trace specification compares of a DataContext.
+pub fn ctx_json<T: serde::Serialize>(ctx: &T) -> Value {
+    let c = to_value(ctx);
+    let verts: Vec<Value> = pairs(c.get("vertices")).iter().map(|p| json!([p[0], vnum(&p[1])])).collect();
+    let values: Vec<Value> = c.get("values").and_then(|v| v.as_array()).map(|a| a.iter().map(tagged).collect()).unwrap_or_default();
+    let susp: Vec<Value> = c.get("suspended_vertices").and_then(|v| v.as_array()).map(|a| a.iter().map(vnum).collect()).unwrap_or_default();
+    let tags: Vec<Value> = pairs(c.get("imported_tags")).iter().map(|p| {
+        let tv = if p[1].is_string() { json!({"ex": false, "v": {"k":"null"}}) } else { json!({"ex": true, "v": tagged(&p[1]["Some"])}) };
+        json!([refkey(&p[0]), tv])
+    }).collect();
+    let folded: Vec<Value> = pairs(c.get("folded_contexts")).iter().map(|p| json!([p[0], if p[1].is_null() { json!(-1) } else { json!(p[1].as_array().map(|a| a.len()).unwrap_or(0)) }])).collect();
+    let fvals: Vec<Value> = pairs(c.get("folded_values")).iter().map(|p| json!([p[0], value_or_vec(&p[1])])).collect();
+    let piggy = c.get("piggyback").and_then(|v| v.as_array()).map(|a| a.len()).unwrap_or(0);
+    json!({"active": vnum(&c["active_vertex"]), "verts": verts, "values": values, "susp": susp, "tags": tags, "folded": folded, "fvals": fvals, "piggy": piggy})
+}
+
+fn ev(e: &str) -> Value {
+    json!({"e": e, "call": 0, "fn": "", "vid": 0, "ty": "", "field": "", "eid": 0, "ctx": {"active": 0}, "v": {"t":"none"}, "pos": 0, "ny": 0})
+}
+
+/// Runs the query through Tap(Batching(GA, policy)) taking at most `max_rows` rows, and returns
+/// {"t":"ok","events":[...],"rows":[...],"ncalls":n} (or {"t":"panic",..}).
+pub fn trace_run(ga: &GA, iq: &Arc<IndexedQuery>, args: &Arc<BTreeMap<Arc<str>, FieldValue>>, policy: &Policy, default: (bool, usize), max_rows: usize) -> Value {
+    let ga = ga.clone(); let iq = iq.clone(); let args = args.clone(); let policy = policy.clone();
+    let r = panic::catch_unwind(AssertUnwindSafe(move || {
+        let targs: BTreeMap<String, FieldValue> = args.iter().map(|(k, v)| (k.to_string(), v.clone())).collect();
+        let tracer = Rc::new(RefCell::new(Trace::<V>::new(iq.ir_query.clone(), targs)));
+        let b = Batching::new(ga, &policy, default);
+        #[allow(clippy::arc_with_non_send_sync)]
+        let tap = Arc::new(AdapterTap::new(b, tracer.clone()));
+        let mut it = tap_results(tap.clone(), interpret_ir(tap.clone(), iq.clone(), args.clone()).unwrap());
+        let mut marks: Vec<usize> = vec![]; let mut rows: Vec<Row> = vec![];
+        loop {
+            if rows.len() >= max_rows { break; }
+            marks.push(tracer.borrow().ops.len());
+            match it.next() { Some(r) => rows.push(r), None => break }
+        }
+        drop(it);
+        let trace = tracer.borrow();
+        let mut events: Vec<Value> = vec![];
+        let mut call_ord: BTreeMap<Opid, usize> = BTreeMap::new();
+        let mut outer_ord: BTreeMap<Opid, usize> = BTreeMap::new();
+        let mut mi = 0usize;
+        for (idx, (opid, op)) in trace.ops.iter().enumerate() {
+            while mi < marks.len() && marks[mi] == idx { events.push(ev("Request")); mi += 1; }
+            let parent_call = op.parent_opid.and_then(|p| call_ord.get(&p).cloned()).unwrap_or(0);
+            let parent_outer = op.parent_opid.and_then(|p| outer_ord.get(&p).cloned()).unwrap_or(0);
+            let mut e;
+            match &op.content {
+                TraceOpContent::Call(fc) => {
+                    let n = call_ord.len() + 1; call_ord.insert(*opid, n);
+                    e = ev("Call"); e["call"] = json!(n);
+                    match fc {
+                        FunctionCall::ResolveStartingVertices(vid) => { e["fn"] = json!("start"); e["vid"] = json!(idn(vid)); }
+                        FunctionCall::ResolveProperty(vid, ty, p) => { e["fn"] = json!("prop"); e["vid"] = json!(idn(vid)); e["ty"] = json!(ty.as_ref()); e["field"] = json!(p.as_ref()); }
+                        FunctionCall::ResolveNeighbors(vid, ty, eid) => { e["fn"] = json!("nbrs"); e["vid"] = json!(idn(vid)); e["ty"] = json!(ty.as_ref()); e["eid"] = json!(idn(eid)); }
+                        FunctionCall::ResolveCoercion(vid, ty, to) => { e["fn"] = json!("coerce"); e["vid"] = json!(idn(vid)); e["ty"] = json!(ty.as_ref()); e["field"] = json!(to.as_ref()); }
+                    }
+                }
+                TraceOpContent::AdvanceInputIterator => { e = ev("Advance"); e["call"] = json!(parent_call); }
+                TraceOpContent::YieldInto(ctx) => { e = ev("YieldInto"); e["call"] = json!(parent_call); e["ctx"] = ctx_json(ctx); }
+                TraceOpContent::InputIteratorExhausted => { e = ev("InExh"); e["call"] = json!(parent_call); }
+                TraceOpContent::OutputIteratorExhausted => {
+                    if parent_outer > 0 { e = ev("NbrExh"); e["ny"] = json!(parent_outer); } else { e = ev("OutExh"); e["call"] = json!(parent_call); }
+                }
+                TraceOpContent::YieldFrom(y) => match y {
+                    YieldValue::ResolveStartingVertices(v) => { e = ev("YieldFrom"); e["call"] = json!(parent_call); e["fn"] = json!("start"); e["v"] = json!({"t":"val","v": from_fv(&FieldValue::Int64(v.0 as i64))}); }
+                    YieldValue::ResolveProperty(ctx, val) => { e = ev("YieldFrom"); e["call"] = json!(parent_call); e["fn"] = json!("prop"); e["ctx"] = ctx_json(ctx); e["v"] = json!({"t":"val","v": from_fv(val)}); }
+                    YieldValue::ResolveCoercion(ctx, b) => { e = ev("YieldFrom"); e["call"] = json!(parent_call); e["fn"] = json!("coerce"); e["ctx"] = ctx_json(ctx); e["v"] = json!({"t":"bool","b": b}); }
+                    YieldValue::ResolveNeighborsOuter(ctx) => {
+                        let n = outer_ord.len() + 1; outer_ord.insert(*opid, n);
+                        e = ev("YieldFrom"); e["call"] = json!(parent_call); e["fn"] = json!("nbrs"); e["ctx"] = ctx_json(ctx); e["ny"] = json!(n);
+                    }
+                    YieldValue::ResolveNeighborsInner(pos, v) => { e = ev("NbrInner"); e["ny"] = json!(parent_outer); e["pos"] = json!(pos); e["v"] = json!({"t":"val","v": from_fv(&FieldValue::Int64(v.0 as i64))}); }
+                },
+                TraceOpContent::ProduceQueryResult(row) => { e = ev("Row"); e["ctx"] = row_json(row); }
+            }
+            events.push(e);
+        }
+        while mi < marks.len() { events.push(ev("Request")); mi += 1; }
+        json!({"t":"ok","events": events, "rows": rows.iter().map(row_json).collect::<Vec<_>>(), "ncalls": call_ord.len()})
+    }));
+    r.unwrap_or_else(|p| json!({"t":"panic","err": panic_msg(p)}))
+}
